@@ -5,7 +5,7 @@ set -e
 cd "$(dirname "$0")"
 export GOFLAGS=-mod=mod GOPROXY=off GOSUMDB=off GOTOOLCHAIN=local
 mkdir -p work evidence replays
-(cd coq && ./mkproject.sh && timeout 3000 make -j16)
+(cd coq && ./mkproject.sh && (timeout 3000 make -k -j16 || echo "warning: some Coq files did not build; each check rebuilds and reports its own closure"))
 for spec in $(cat ocaml/drivers.txt | grep -v '^#' | tr ' ' ':'); do
   model=$(echo $spec | cut -d: -f1); driver=$(echo $spec | cut -d: -f2); out=$(echo $spec | cut -d: -f3)
   (cd ocaml && ./build.sh $model $driver $out)
